@@ -4,4 +4,5 @@ EXTENDS Markup
 \* reduced pattern set for the quick tier (rotation by index mod 3 only)
 QPats == {"P", "A", "R0", "R1", "R2"}
 Order0 == {0}
+QRels == {"none", "present"}
 ====
